@@ -274,31 +274,41 @@ def jacobi_forward_task(variant, alias):
         sp.define(v, comps)
         v.assume(prefix_nonzero(sp, Na))
 
-        def elems(upto_active, upto_test):
-            r = []
-            for c in comps:
-                r.append(("active_" + c, z3.Implies(between(1, j, upto_active), H(c, j) == sp.o(c, j) - sp.com(c, j))))
-                if upto_test is not None:
-                    r.append(("test_" + c, z3.Implies(between(Na, j, upto_test), H(c, j) == sp.o(c, j) - sp.com(c, Na))))
-            if writes_m:
-                hi = upto_active if upto_test is None else upto_test
-                r.append(("mass", z3.Implies(between(1, j, hi), H("m", j) == z3.Select(pmass0, j))))
-            return r
+        def make_invariants(comps_, writes_m_):
+            def elems(upto_active, upto_test):
+                r = []
+                for c in comps_:
+                    r.append(("active_" + c, z3.Implies(between(1, j, upto_active), H(c, j) == sp.o(c, j) - sp.com(c, j))))
+                    if upto_test is not None:
+                        r.append(("test_" + c, z3.Implies(between(Na, j, upto_test), H(c, j) == sp.o(c, j) - sp.com(c, Na))))
+                if writes_m_:
+                    hi = upto_active if upto_test is None else upto_test
+                    r.append(("mass", z3.Implies(between(1, j, hi), H("m", j) == z3.Select(pmass0, j))))
+                return r
 
-        def inv0(L):
-            i = L.i
-            sp.at(L, i, comps)
-            r = [("range", z3.And(1 <= i, i <= Na)), ("eta", L.eta == sp.M(i))]
-            r += [("s_" + c, L["s_" + c] == sp.S(c, i)) for c in comps]
-            return r + elems(i, None)
+            def inv0(L):
+                i = L.i
+                sp.at(L, i, comps_)
+                r = [("range", z3.And(1 <= i, i <= Na)), ("eta", L.eta == sp.M(i))]
+                r += [("s_" + c, L["s_" + c] == sp.S(c, i)) for c in comps_]
+                return r + elems(i, None)
+
+            def inv1(L):
+                i = L.i
+                r = [("range", z3.And(Na <= i, i <= N)), ("eta", L.eta == sp.M(Na))]
+                r += [("s_" + c, L["s_" + c] == sp.S(c, Na)) for c in comps_]
+                return r + elems(Na, i)
+            return inv0, inv1
+        inv0, inv1 = make_invariants(comps, writes_m)
         v.loop(fn, 0, invariant=inv0, variant=lambda L: Na - L.i)
-
-        def inv1(L):
-            i = L.i
-            r = [("range", z3.And(Na <= i, i <= N)), ("eta", L.eta == sp.M(Na))]
-            r += [("s_" + c, L["s_" + c] == sp.S(c, Na)) for c in comps]
-            return r + elems(Na, i)
         v.loop(fn, 1, invariant=inv1, variant=lambda L: N - L.i)
+        # if the combined variant is ever expressed through its siblings, their bodies are inlined: the siblings' loops then
+        # carry the siblings' invariants (same specification objects), so the combined contract is still decided
+        for sib, (scomps, swm) in JAC_FWD.items():
+            if sib != variant and set(scomps) <= set(comps):
+                i0, i1 = make_invariants(scomps, swm)
+                v.loop(PRE + "inertial_to_jacobi_" + sib, 0, invariant=i0, variant=lambda L: Na - L.i)
+                v.loop(PRE + "inertial_to_jacobi_" + sib, 1, invariant=i1, variant=lambda L: N - L.i)
         v.call(fn, parts.ptr, pj.ptr, pm.ptr, N, Na)
         prove_all(v, "", slot0_post(sp, H, Na, comps, with_m=writes_m))
         v.assume(1 <= j, j < N)
